@@ -126,6 +126,14 @@ def work(task):
             bad = connectivity_violations(lgates, oconn.edge_set(n, conn))
             if bad:
                 p.violate(key + "connectivity", "%s entry %d uses %s on uncoupled pair %s" % (fname, i, bad[0][1], list(bad[0][2])), case)
+        # ... also after the caller edited the very circuit object it got from parse_circuit()
+        call(qc.h, 0)
+        call(qc.cz, 0, n - 1)
+        call(qc.measure_all)
+        ok_r, qc_again = call(lambda: circuit_lookup.stabilizer_circuit_lookup(n, conn, i).parse_circuit())
+        if not ok_r or gates_of(qc_again) != ogates:
+            p.violate(key + "changed-by-use", "%s entry %d reads [%s] after a caller edited the circuit object returned by parse_circuit(); the file says [%s]"
+                      % (fname, i, fmt_gates(gates_of(qc_again))[:200] if ok_r else "?", fmt_gates(ogates)), case)
         # the entry must stay what it is while its circuit is being used: request the entry's own graph state (in a random
         # generating set, random signs) through the public API, edit the delivered circuit the way callers do, read the entry again
         if advertised:
